@@ -32,6 +32,18 @@ Inductive aleaf :=
 
 Definition has_cands (it : item) : bool := match snd it with [] => false | _ => true end.
 
+(* run f on every part in order; the first Oversize aborts; results are concatenated,
+   the dropped sources come last *)
+Fixpoint seq_res (f : group -> result (list aleaf)) (ps : list group) (tail : list aleaf) : result (list aleaf) :=
+  match ps with
+  | [] => Ok tail
+  | p :: ps' =>
+    match f p with
+    | Oversize => Oversize
+    | Ok l => match seq_res f ps' tail with Oversize => Oversize | Ok l' => Ok (l ++ l') end
+    end
+  end.
+
 Fixpoint asplit (fuel : nat) (a : acfg) (R2 : Z) (k : nat) (g : group) {struct fuel} : result (list aleaf) :=
   if (length g <=? a_max a)%nat then Ok [Leaf k g]
   else if at_stop a k then Oversize
@@ -40,16 +52,7 @@ Fixpoint asplit (fuel : nat) (a : acfg) (R2 : Z) (k : nat) (g : group) {struct f
        | S fuel' =>
          let g' := map (prune a R2 (S k)) g in
          let dropped := map (fun it : item => Dropped (fst it)) (filter (fun it => negb (has_cands it)) g') in
-         let parts := components (filter has_cands g') in
-         (fix go (ps : list group) : result (list aleaf) :=
-            match ps with
-            | [] => Ok dropped
-            | p :: ps' =>
-              match asplit fuel' a R2 (S k) p with
-              | Oversize => Oversize
-              | Ok l => match go ps' with Oversize => Oversize | Ok l' => Ok (l ++ l') end
-              end
-            end) parts
+         seq_res (asplit fuel' a R2 (S k)) (components (filter has_cands g')) dropped
        end.
 
 Fixpoint asplit_all (fuel : nat) (a : acfg) (R2 : Z) (gs : list group) : result (list aleaf) :=
